@@ -128,6 +128,7 @@ type Sim struct {
 	KeepLog   bool
 	Log       []Event
 	logCap    int
+	selYield  bool
 
 	failures     []Failure
 	invariants   []func() error
